@@ -1,6 +1,8 @@
 SPECIFICATION Spec
 CONSTANTS
   MaxLen = 3
-  Guard = TRUE
+  GuardMode = "all"
+  NormAfterGuard <- NoApis
+  Classes <- AllClasses
 INVARIANTS Confined TypeOK
 CHECK_DEADLOCK FALSE
